@@ -174,6 +174,33 @@ def run_case(ctx, res, case, lines, post):
             except Exception as e:  # noqa: BLE001
                 res.failures.append({'kind': 'prediction-raised-after-failed-evaluation', 'signature': sig,
                                      'input': {**info, 'mode': mode}, 'observed': repr(e)[:300]})
+        # 6. imputed values are used ONLY where a value is missing: a single-fidelity surrogate still passes through every stored
+        #    TRUE value (all data of the failure-free twin at the points that did not fail), in both modes — a shifted or dropped
+        #    row in any index's data shows here
+        if len(case['alpha_lim']) == 0 and sig != 'unimputable-first-of-alpha':
+            good = [(key, d) for key, d in clean_store.items() if key not in failed_keys]
+            xg_ = {n: list(comp.training_data.x_grids[n]) for n in names}
+            Xg = {n: np.array([xg_[n][key[1][d_]] for key, _ in good]) for d_, n in enumerate(names)}
+            for mode in ('train', 'test'):
+                iset = set(comp.active_set) if mode == 'train' else set(comp.active_set) | set(comp.candidate_set)
+                # only the points of the index set in use
+                used = set()
+                for (a_, b_) in iset:
+                    used |= set(itertools.product(*[range(len(g_)) for g_ in [xg_[n][:case['kpl'] * b_[d_] + 1] for d_, n in enumerate(names)]]))
+                try:
+                    yp = comp.predict(Xg, index_set=mode)
+                except Exception:  # noqa: BLE001  (reported above)
+                    continue
+                for r, (key, d) in enumerate(good):
+                    if key[1] not in used:
+                        continue
+                    for o in outs:
+                        got_, exp_ = float(np.asarray(yp[o]).reshape(-1)[r]), float(d[o])
+                        if not abs(got_ - exp_) <= 1e-7 * max(1.0, abs(exp_)):
+                            res.failures.append({'kind': 'surrogate-misses-a-true-training-value-after-a-failed-evaluation', 'signature': 'none',
+                                                 'input': {**info, 'mode': mode, 'coord': list(key[1]), 'output': o},
+                                                 'observed': got_, 'expected': exp_})
+            res.hit('pass-through-of-true-values-after-failures')
     # Lean: re-basing of global error positions to per-index local positions for one synthetic batch of this case
     sizes = [rng.randint(0, 4) for _ in range(rng.randint(2, 5))]
     tot = sum(sizes)
